@@ -494,8 +494,10 @@ def stat(name, data):
 
 
 def wildcard_match(item, pattern):
-    import fnmatch
-    return fnmatch.fnmatch(item, pattern)
+    # * stands for any run of characters, ? for any one character, every other character for itself (independent of fnmatch)
+    import re
+    rx = ''.join('.*' if ch == '*' else '.' if ch == '?' else re.escape(ch) for ch in pattern)
+    return re.fullmatch(rx, item, re.DOTALL) is not None
 
 
 def acot(x):
